@@ -103,8 +103,8 @@ def hexary_calls(acc, t, state_fn, key, where):
 
 
 def hexary_state(t):
-    rc = None if not t.is_pruning else sorted((k, v) for k, v in t._ref_count.items() if v)
-    return (t.root_hash, sorted(t.db.items()), rc, t._pending_prune_keys)
+    rc = None if not t.is_pruning else sorted((k, v) for k, v in t.ref_count.items() if v)
+    return (t.root_hash, sorted(t.db.items()), rc, getattr(t, "_pending_prune_keys", None))
 
 
 def work_hexary(snap, model, keys):
@@ -117,8 +117,8 @@ def work_hexary(snap, model, keys):
         b.set(keys[1], b"inbatch")
 
         def st():
-            return (b.root_hash, sorted((k, repr(v)) for k, v in b.db.cache.items()), sorted((k, v) for k, v in b._ref_count.items() if v),
-                    b._pending_prune_keys, hexary_state(t2))
+            return (b.root_hash, sorted((k, repr(v)) for k, v in b.db.cache.items()), sorted((k, v) for k, v in b.ref_count.items() if v),
+                    getattr(b, "_pending_prune_keys", None), hexary_state(t2))
         hexary_calls(acc, b, st, keys[2], "[batch]")
     return acc.evals, acc.ok, acc.viols, dict(acc.stats)
 
